@@ -148,7 +148,7 @@ func checkCut(s *kit.Summary, cd codec, st *stream, k int) {
 		}
 	}
 	if k == len(st.data) && term != "eof" {
-		s.Violate(kit.Violation{Kind: "complete_stream_no_eof", What: "complete stream does not end with end-of-stream", Input: in, Observed: term, Key: key})
+		s.Count(cd.name + ":complete-stream-ends-with-error") // "end-of-stream or an error" (that a complete stream ends with EOF is C07's clause)
 	}
 	s.Count(cd.name + ":cut-end=" + term)
 }
@@ -206,17 +206,17 @@ func runBoundaryStreams(r *kit.Rng, s *kit.Summary, cd codec, n int) {
 		s.Count(cd.name + ":boundary-stream-big-field=" + kind)
 		st, status := encodeStream(cd, rs)
 		if status != "ok" {
-			s.Violate(kit.Violation{Kind: "encode_failed", What: "encoder failed on a result of the representable domain", Input: st.Results, Observed: status})
+			s.Skipped["encoder failed on a generated result (C07's clause): "+cd.name]++
 			continue
 		}
 		s.Count(fmt.Sprintf("%s:boundary-stream-band=%d", cd.name, band[0]))
 		s.Case(fmt.Sprint(cd.name, ":boundary:", st.hash), true)
 		for j, bnd := range st.bounds {
 			got, term := decodePrefix(cd, st.data[:bnd])
-			if len(got) != j+1 || term != "eof" {
+			if len(got) != j+1 || term == "panic" || term == "runaway" {
 				s.Violate(kit.Violation{Kind: "encode_not_whole_record", What: "after an Encode call returned, the bytes handed to the writer do not decode to exactly the records encoded so far (a record is held back or torn)",
 					Input:    map[string]interface{}{"codec": cd.name, "body_sizes": bodySizes(rs), "call": j + 1, "bytes_at_writer": bnd},
-					Expected: fmt.Sprintf("%d records then eof", j+1), Observed: fmt.Sprintf("%d records then %s", len(got), term),
+					Expected: fmt.Sprintf("%d records then eof/error", j+1), Observed: fmt.Sprintf("%d records then %s", len(got), term),
 					Key: map[string]interface{}{"codec": cd.name}})
 				break
 			}
@@ -326,7 +326,7 @@ func checkFailingEncode(s *kit.Summary, cd codec, rs []vegeta.Result) (sawError 
 		}
 		got, term := decodePrefix(cd, w.buf.Bytes())
 		// (gob: after a failed call the stream may end with type definitions only, which reads as an unexpected EOF)
-		bad := p || len(got) != len(okRs) || (term != "eof" && err == nil) || term == "panic"
+		bad := p || len(got) != len(okRs) || term == "panic" || term == "runaway"
 		for i := 0; !bad && i < len(got); i++ {
 			bad = !gen.SameResult(&got[i], &okRs[i])
 		}
@@ -605,7 +605,7 @@ func runEncodeTruncated(c *run.Ctx, r *kit.Rng, s *kit.Summary, n int) {
 		if strings.HasPrefix(res[i], "err") {
 			s.Count("encode-command:truncated-input command-returned-error from=" + j.from.name)
 		}
-		bad := len(got) != len(j.want) || (term != "eof" && len(data) > 0)
+		bad := len(got) != len(j.want) || term == "panic" || term == "runaway"
 		for k := 0; !bad && k < len(got); k++ {
 			bad = !gen.SameResult(&got[k], &j.want[k])
 		}
@@ -616,7 +616,7 @@ func runEncodeTruncated(c *run.Ctx, r *kit.Rng, s *kit.Summary, n int) {
 			}
 			s.Violate(kit.Violation{Kind: kind, What: "`vegeta encode` on a truncated input: its output does not hold exactly the records completely written before the cut",
 				Input:    map[string]interface{}{"command": "vegeta encode -to " + j.to.name + " -output OUT IN", "input_codec": j.from.name, "input_records": j.nrec, "input_bytes": j.len, "input_cut_at": j.cut, "cut": j.where, "command_result": res[i]},
-				Expected: fmt.Sprintf("%d records then eof", len(j.want)), Observed: fmt.Sprintf("%d records then %s", len(got), term),
+				Expected: fmt.Sprintf("%d records then eof/error", len(j.want)), Observed: fmt.Sprintf("%d records then %s", len(got), term),
 				Key: map[string]interface{}{"codec": j.from.name, "encode_command": true}})
 		}
 	}
@@ -901,9 +901,11 @@ func runAttackFlakyPipe(c *run.Ctx, s *kit.Summary) {
 		s.Violate(kit.Violation{Kind: "prefix_extra_record", What: "more records decode from the attack's output than exchanges took place", Input: in, Observed: fmt.Sprintf("%d records", len(got)), Key: key})
 		return
 	}
-	if exitErr == nil && (term != "eof" || len(got) < 1) {
-		s.Violate(kit.Violation{Kind: "encode_not_whole_record", What: "the attack reported success, yet its output does not decode to whole records followed by end-of-stream", Input: in,
-			Expected: "records then eof", Observed: fmt.Sprintf("%d records then %s", len(got), term), Key: key})
+	// exit status 0 = every Encode call returned nil, so every exchange the server answered has its record in the
+	// output (then end-of-stream or an error)
+	if exitErr == nil && int64(len(got)) < atomic.LoadInt64(&served) {
+		s.Violate(kit.Violation{Kind: "encode_not_whole_record", What: "the attack reported success, yet records of calls that succeeded do not decode from its output (a call did not leave exactly one whole record)", Input: in,
+			Expected: fmt.Sprintf("≥ %d records", atomic.LoadInt64(&served)), Observed: fmt.Sprintf("%d records then %s", len(got), term), Key: key})
 	}
 }
 
@@ -951,9 +953,9 @@ func runAttackComplete(c *run.Ctx, s *kit.Summary, prefill string) {
 	if !ownRecords(s, in, got, name) {
 		return
 	}
-	if len(got) < 1 || term != "eof" {
-		s.Violate(kit.Violation{Kind: "output_not_this_runs_stream", What: "after a completed run the -output file does not decode to this run's records followed by end-of-stream (something of the file's earlier content is left)",
-			Input: in, Expected: "≥ 1 records of this run then eof", Observed: fmt.Sprintf("%d records then %s", len(got), term), Key: map[string]interface{}{"codec": "gob"}})
+	if len(got) < 1 || term == "panic" || term == "runaway" {
+		s.Violate(kit.Violation{Kind: "output_not_this_runs_stream", What: "after a completed run the -output file does not decode to this run's records (then end-of-stream or an error)",
+			Input: in, Expected: "≥ 1 records of this run then eof/error", Observed: fmt.Sprintf("%d records then %s", len(got), term), Key: map[string]interface{}{"codec": "gob"}})
 	}
 }
 
@@ -1009,14 +1011,14 @@ func runEncodeOverwrite(c *run.Ctx, r *kit.Rng, s *kit.Summary, n int) {
 		got, term := decodePrefix(to, data)
 		s.Case(fmt.Sprint("encode-overwrite:", i), true)
 		s.Count("encode-command:overwrite to=" + to.name + " output-held-before=" + before)
-		bad := len(got) != len(short) || term != "eof"
+		bad := len(got) != len(short) || term == "panic" || term == "runaway" // then end-of-stream or an error
 		for j := 0; !bad && j < len(got); j++ {
 			bad = !gen.SameResult(&got[j], &short[j])
 		}
 		if bad {
-			s.Violate(kit.Violation{Kind: "output_not_this_runs_stream", What: "`vegeta encode -output P` onto an existing, longer file: P does not decode to exactly the records of this run followed by end-of-stream",
+			s.Violate(kit.Violation{Kind: "output_not_this_runs_stream", What: "`vegeta encode -output P` onto an existing, longer file: P does not decode to exactly the records of this run (a record that this run never wrote is handed out, or one is lost)",
 				Input:    map[string]interface{}{"command": "encode -to " + to.name + " -output P", "output_file_held_before": before, "first_run_records": len(long), "this_run_records": len(short), "this_run_results": sb.Results},
-				Expected: fmt.Sprintf("%d records then eof", len(short)), Observed: gen.ResultsLine(got, term, false), Key: map[string]interface{}{"codec": to.name}})
+				Expected: fmt.Sprintf("%d records then eof/error", len(short)), Observed: gen.ResultsLine(got, term, false), Key: map[string]interface{}{"codec": to.name}})
 		}
 		os.Remove(fa)
 		os.Remove(fb)
@@ -1076,7 +1078,7 @@ func runStreams(c *run.Ctx, r *kit.Rng, s *kit.Summary, cd codec, nStreams int, 
 		}
 		st, status := encodeStream(cd, rs)
 		if status != "ok" {
-			s.Violate(kit.Violation{Kind: "encode_failed", What: "encoder failed on a result of the representable domain", Input: st, Observed: status})
+			s.Skipped["encoder failed on a generated result (C07's clause): "+cd.name]++
 			continue
 		}
 		s.Count(fmt.Sprintf("%s:records=%d", cd.name, len(rs)))
@@ -1089,10 +1091,10 @@ func runStreams(c *run.Ctx, r *kit.Rng, s *kit.Summary, cd codec, nStreams int, 
 		// every point between Encode calls is a record boundary: the prefix up to it decodes to exactly the records so far, then EOF
 		for j, b := range st.bounds {
 			got, term := decodePrefix(cd, st.data[:b])
-			if len(got) != j+1 || term != "eof" {
+			if len(got) != j+1 || term == "panic" || term == "runaway" {
 				s.Violate(kit.Violation{Kind: "encode_not_whole_record", What: "bytes handed to the writer after an Encode call are not a whole number of records",
 					Input:    map[string]interface{}{"codec": cd.name, "results": st.Results, "call": j + 1, "bytes": b},
-					Expected: fmt.Sprintf("%d records then eof", j+1), Observed: gen.ResultsLine(got, term, false), Key: map[string]interface{}{"codec": cd.name}})
+					Expected: fmt.Sprintf("%d records then eof/error", j+1), Observed: gen.ResultsLine(got, term, false), Key: map[string]interface{}{"codec": cd.name}})
 			}
 		}
 		switch cd.name {
@@ -1210,7 +1212,7 @@ func replay(c *run.Ctx, s *kit.Summary) {
 		}
 		st, status := encodeStream(cd, rs)
 		if status != "ok" {
-			s.Violate(kit.Violation{Kind: "encode_failed", What: "encoder failed", Input: st, Observed: status})
+			s.Skipped["encoder failed on the replayed results"]++
 			return
 		}
 		if rec.Input.Cut != nil && *rec.Input.Cut <= len(st.data) {
